@@ -171,7 +171,7 @@ pub enum ATag { A, B(u32), C(u8, i8), D { x: String }, E(char), F(Point) }
 
 #[derive(Serialize, Deserialize)]
 #[serde(untagged)]
-pub enum Untagged { Num(u32), Text(String), Pair(u8, u8), Rec { x: u8, y: String }, Pt(Point), Fl(f64), Flag(bool), Big(i64) }
+pub enum Untagged { Num(u32), Text(String), Pair(u8, u8), Rec { x: u8, y: String }, Pt(Point), Big(i64), Fl(f64), Flag(bool) }
 
 #[derive(Serialize, Deserialize)]
 #[serde(untagged)]
